@@ -41,7 +41,7 @@ Proof. intros prog input i s H1 H2. exact (fragment_no_panic_no_out prog input H
    is_match is Ok, and for a regex not flagged nullable tokenize and replace_all (plain replacement) are Ok *)
 Theorem C05_group_grammar_total_partial :
   forall xpath a fls input,
-    ok_a xpath a = true -> existsb (N.eqb 59) fls = false -> (N.of_nat (length input) < umax)%N ->
+    ok_a xpath a = true -> existsb (N.eqb 59) fls = false -> (N.of_nat (length input) < umax)%N -> valid_in input ->
     match spec_flags xpath fls with
     | Valid sf =>
         s_q sf = false -> s_x sf = false ->
